@@ -27,6 +27,30 @@ type Atom struct {
 	W    int     // width in bits of the quantity
 	Hi   uint64  // inclusive upper bound (lower bound is 0)
 	Deps []*Atom // base atoms (entry symbols, bus reads) this quantity is computed from; nil for a base atom
+	// gated merge ite(IteCond, IteT, IteF), if this atom is one
+	IteCond    string
+	IteT, IteF *Lin
+}
+
+// Restrict simplifies a form under the assumption that the branch conditions in
+// guards (key -> truth value) hold: gated merges over those conditions collapse to
+// the corresponding side.
+func Restrict(l *Lin, guards map[string]bool) *Lin {
+	r := &Lin{W: l.W, C: l.C}
+	for _, t := range l.T {
+		if t.A.IteT != nil {
+			if v, ok := guards[t.A.IteCond]; ok {
+				side := t.A.IteF
+				if v {
+					side = t.A.IteT
+				}
+				r = linAdd(r, linScale(Restrict(side, guards), t.K), false)
+				continue
+			}
+		}
+		r = linAdd(r, &Lin{W: l.W, T: []LinTerm{t}}, false)
+	}
+	return r
 }
 
 // BaseDeps returns the base atoms a depends on (itself if it is a base atom).
